@@ -23,6 +23,23 @@ CLAIMED = {
         "PrimFloat primitives (kernel) appear under the refutation witness.",
    technique="Coq theorems about an extracted Gallina model + differential correspondence with the implementation",
    design="§6 C16"),
+ 'C02': dict(
+   text="Theorems: the executable closure equals the declarative derivation closure Reach; any legal resolution order that ends "
+        "with no active choice yields exactly the closure (all start nodes, no choice node); the result is independent of the "
+        "order; enum_adm enumerates exactly the admissible assignments, each once; every admissible assignment is reachable "
+        "by a legal run. The graph API is driven along every admissible assignment in several orders and along every path it "
+        "offers, and compared with the proved enumeration.",
+   note=BASE + "Intermediate graphs are not compared. Known findings K1, K7, K8 (see known_findings.json) are reported as KNOWN-FINDING by generator guards.",
+   technique="Coq theorems about an extracted Gallina model + differential correspondence with the implementation",
+   design="§6 C02"),
+ 'C06': dict(
+   text="Theorems: no admissible instance contains an incompatible pair; an option that necessarily confirms an incompatible pair "
+        "is in no admissible assignment; every conflict-free assignment is enumerated and reachable by a legal run (no "
+        "over-pruning); the admissible set is empty iff every assignment conflicts. The graph API is compared with the "
+        "proved enumeration on graphs with 1-3 incompatibility constraints.",
+   note=BASE + "Known findings K7, K8 are reported as KNOWN-FINDING by generator guards.",
+   technique="Coq theorems about an extracted Gallina model + differential correspondence with the implementation",
+   design="§6 C06"),
 }
 NA_REASON = "machinery under construction in this round; not yet claimed"
 
